@@ -19,7 +19,7 @@ from vlib import build, driver, model as M, rigp, runner
 PID = "C04"
 KINDS_C = ["ok", "rid+1", "rid-1", "rid0", "ridneg", "stale", "comm_prefix", "comm_suffix", "comm_empty", "comm_case", "version", "trunc", "late", "dup"]
 KINDS_3 = ["ok", "rid+1", "rid-1", "rid0", "ridneg", "stale", "msgid", "user", "engine", "version", "trunc", "late", "dup", "report"]
-T_SHORT = 0.15
+T_SHORT = 0.25
 
 
 def kinds_for(cfg):
